@@ -172,6 +172,33 @@ def run(chk, replay=None):
                                    "impl": r["out"][j] if j >= 0 else None, "correspondence": "SM.ConcreteNs / SM.NsScript"}, False)
         chk.cov["namespace_script_steps"] = n_ns
 
+    # ---- a follower killed DURING the snapshot install: crash images of its data directory, restarted next to the leader ----
+    import nodescen_install
+    from checks import c04 as _c04
+    okS, outS = _c04.build_shim()
+    if not okS:
+        chk.violation("crashfs shim does not build", {"broken": "shim build", "log": outS[-1000:]}, False)
+    else:
+        for rep in range(1 if tier == "quick" else 3):
+            oi = nodescen_install.scenario_install_crash_images(binary, rng, _c04.SHIM_SO, _c04.parse_journal, _c04.apply_mut, _c04.write_image,
+                                                                n_images=8 if tier == "quick" else 16)
+            n_eval += 1
+            if not oi.get("images"):
+                chk.notes.setdefault("inconclusive", []).append({"scenario": "install_crash_images", "errors": oi.get("errors"),
+                                                                 "joined": oi.get("joined"), "caught_up": oi.get("caught_up")})
+                continue
+            nontrivial.add(("install-crash", rep, tuple(oi.get("window", []))))
+            for im in oi["images"]:
+                n_eval += 1
+                if not im.get("follows") or im.get("diff"):
+                    chk.classify("install-crash-image",
+                                 "a follower killed during the snapshot install (after file mutation #%d of its journal: %s) and restarted next to "
+                                 "the leader %s" % (im["journal_prefix"], im["tail"][-3:],
+                                                    "never follows the leader again" if not im.get("follows") else
+                                                    "serves other data than the leader: %s" % im["diff"][:2]),
+                                 {"scenario": "install_crash_images", "image": im, "window": oi.get("window")})
+            chk.cov["install_crash_images"] = chk.cov.get("install_crash_images", 0) + len(oi["images"])
+
     # ---- late join ---------------------------------------------------------------------
     shapes = [(90, 30), (60, 10)] if tier == "quick" else [(90, 30), (60, 10), (300, 50), (40, 5), (500, 100), (120, 20)]
     for writes, threshold in shapes:
